@@ -49,8 +49,29 @@ def batch_dense(rng: Any) -> tuple[Any, Any]:
     return s, (op.T if rng.integers(2) else op)
 
 
+def unit_leaf_operator(rng: Any) -> tuple[Any, Any]:
+    """Operators on pytrees that hold a leaf of shape (1,) or () BEFORE other leaves (a gain next to a timestream), whose dense
+    form comes from the generic column-by-column builder."""
+    import jax.numpy as jnp
+    from furax._base.core import HomothetyOperator
+    from furax._base.diagonal import DiagonalOperator
+    gen.begin_case(rng)
+    dt = gen.case_dtype(rng)
+    unit = gen.S(gen.pick(rng, [(1,), (1,), (), (1, 1)]), dt)
+    s = gen.pick(rng, [{'a': unit, 'b': gen.S((3,), dt)}, [unit, gen.S((2, 2), dt)], (unit, gen.S((3,), dt), unit)])
+    d = jax.tree.map(lambda l: gen.dy(rng, l.shape, dt, nonzero=True), s)
+    scale = jax.tree.map(lambda l, v: v, s, d)
+    from furax._base.blocks import BlockDiagonalOperator
+    blocks = jax.tree.map(lambda l, v: (DiagonalOperator(v, in_structure=l) if l.shape else HomothetyOperator(v, l)), s, scale)
+    op = HomothetyOperator(2.0, s) @ BlockDiagonalOperator(blocks)       # a composition: generic as_matrix
+    LOG.count('C04.unit-leaf', str(type(s).__name__))
+    return s, op
+
+
 def case(rng: Any, ctx: Ctx, index: int) -> None:
-    if index % 15 == 14:
+    if index % 15 == 13:
+        s, op = unit_leaf_operator(rng)
+    elif index % 15 == 14:
         s, op = batch_dense(rng)
     else:
         s, op = rand_operator(rng, ctx, atoms=0.5, index=index)
